@@ -58,9 +58,14 @@ package memdb
 //@   flags lockcheck
 //@   requires m.s != nil && memInv(m.s)
 //@   modifies m.pos
-//@   loop 0: invariant [C18:mem-seek-scan] -1 <= rangeindex && rangeindex < len(m.s.store) && m.pos == old(m.pos) && (forall k int :: 0 <= k && k <= rangeindex ==> m.s.store[k].Round != round)
-//@   ensures [C18:mem-seek-returns-exactly-the-requested-round] err == nil ==> b != nil && b.Round == round && 0 <= m.pos && m.pos < len(m.s.store) && m.s.store[m.pos] == b
+//@   loop 0: invariant [C18:mem-seek-scan] -1 <= rangeindex && rangeindex < len(m.s.store) && m.pos == old(m.pos) && (forall k int :: 0 <= k && k <= rangeindex ==> m.s.store[k].Round < round)
+//@   ensures [C18:mem-seek-stands-on-the-first-stored-round-at-or-after-the-requested-one] err == nil ==> b != nil && b.Round >= round && 0 <= m.pos && m.pos < len(m.s.store) && m.s.store[m.pos] == b && (forall k int :: 0 <= k && k < m.pos ==> m.s.store[k].Round < round)
+//@   ensures [C18:mem-seek-of-a-stored-round-returns-that-round] err == nil && memHas(m.s, round) ==> b.Round == round
 //@   ensures [C18:mem-seek-fails-only-for-absent-rounds] err != nil ==> !memHas(m.s, round) && m.pos == old(m.pos)
+// C11: the stream routine starts its catch-up scan with Seek(from) and takes "nothing stored" as the end of the data: that
+// answer is right only when no round at or after `from` is stored (this is what the abstract cursor contract the C11
+// proof of SyncChain leans on says; the ring forgets old rounds, so a start round below the retained window is ordinary)
+//@   ensures [C11:mem-seek-reports-nothing-stored-only-when-nothing-is-stored-at-or-after-the-round] is(err, errors.ErrNoBeaconStored) ==> (forall k int {m.s.store[k]} :: 0 <= k && k < len(m.s.store) ==> m.s.store[k].Round < round)
 
 //@ func (*memDBCursor).Last(m, ctx) (b, err)
 //@   props C18 C11
